@@ -353,7 +353,8 @@ class StateMatrix:
         """split state matrices at given axis"""
         xp = common.get_array_module()
         sm = self if sm is None else sm
-        states, equibm, coords = sm.states, sm.equilibrium, sm.coords
+        states, equibm = sm.states, sm.equilibrium
+        coords = None if sm.coords is None else sm.arrays.get("coords")  # broadcast like the states
         if axis != 0:
             states = xp.moveaxis(states, axis, 0)
             equibm = xp.moveaxis(equibm, axis, 0)
